@@ -184,6 +184,10 @@ pub struct Merge {
     pub msgs: Vec<Msg>,
     /// order of channel indices, one entry per packet
     pub order: Vec<usize>,
+    /// transmissions that were given up earlier: (channel index, payload length, fill, number of packets that arrived);
+    /// the receiver still holds them when the messages proper start on the same channels
+    #[serde(default)]
+    pub abandoned: Vec<(usize, usize, u8, usize)>,
 }
 
 pub fn check_merge(ctx: &mut Ctx, mg: &Merge) -> Result<(), String> {
@@ -198,6 +202,22 @@ pub fn check_merge(ctx: &mut Ctx, mg: &Merge) -> Result<(), String> {
     let mut pos = vec![0usize; streams.len()];
     let mut h = ChannelHandler::default();
     let mut delivered = vec![0usize; streams.len()];
+    // abandoned transmissions first: some of their packets arrive, never the last one
+    for (ch, len, fill, k) in &mg.abandoned {
+        let Some(m) = mg.msgs.get(*ch % mg.msgs.len().max(1)) else { continue };
+        let other = Msg { channel: m.channel, cmd: (m.cmd + 1) % 9, len: (*len).min(MAX_PAYLOAD), fill: *fill };
+        if let Some(p) = send(&other)? {
+            if p.len() < 2 {
+                continue;
+            }
+            for packet in p.iter().take((*k).clamp(1, p.len() - 1)) {
+                if catch_unwind(AssertUnwindSafe(|| h.handle_packet(packet))).map_err(|_| format!("handle_packet panicked: {}", crate::last_panic()))?.is_some() {
+                    return Err("a message was delivered although its last packet never arrived".into());
+                }
+            }
+            ctx.class("merge/after an abandoned transmission on the same channel");
+        }
+    }
     for (step, &ch) in mg.order.iter().enumerate() {
         if ch >= streams.len() || pos[ch] >= streams[ch].len() {
             continue;
@@ -278,7 +298,7 @@ fn msg() -> impl Strategy<Value = Msg> {
 
 pub fn run(ctx: &mut Ctx) {
     let fs = ctx.first_shard();
-    ctx.rule = "messages over channel ids (0, broadcast, random), all nine commands, payload lengths (every value 0..=7700, 65535/65536/70000, random) with zero / 0xFF / pseudo-random contents: sender output parsed by an independent packet parser and fed to a fresh receiver. Interleavings of 2-4 channels: ALL order-preserving merges when the streams have at most 9 packets in total, generated merges otherwise (uniformly mixed ones with up to 26 packets per channel, and skewed ones in which one channel pauses inside its message while others send whole messages of up to 129 packets and a further channel starts only afterwards). Non-trivial = message with at least one continuation packet, a refused over-long payload, or a merge of at least two channels; distinct by message / by (messages, order).".into();
+    ctx.rule = "messages over channel ids (0, broadcast, random), all nine commands, payload lengths (every value 0..=7700, 65535/65536/70000, random) with zero / 0xFF / pseudo-random contents: sender output parsed by an independent packet parser and fed to a fresh receiver. Interleavings of 2-4 channels: ALL order-preserving merges when the streams have at most 9 packets in total, generated merges otherwise (uniformly mixed ones with up to 26 packets per channel, and skewed ones in which one channel pauses inside its message while others send whole messages of up to 129 packets and a further channel starts only afterwards; a third of the generated merges run on a receiver that still holds given-up transmissions on the same channels). Non-trivial = message with at least one continuation packet, a refused over-long payload, or a merge of at least two channels; distinct by message / by (messages, order).".into();
     ctx.assumptions = vec![
         "the channel id byte order is accepted as either endianness but must be the same in all packets and round-trip".into(),
         "only messages the sender accepts are constrained; refusals at or below 7609 bytes are measured (Message::new refuses exactly 7609)".into(),
@@ -324,7 +344,7 @@ pub fn run(ctx: &mut Ctx) {
             let msgs: Vec<Msg> = shape.iter().enumerate().map(|(i, packets)| Msg { channel: [7u32, 0xFFFF_FFFF, 0, 0x0A0B_0C0D][i], cmd: (i * 2 + rot + si) % 9, len: if *packets == 1 { 8 + i } else { 57 + 59 * (packets - 2) + 1 + i }, fill: (i + 1) as u8 }).collect();
             for order in all_merges(shape) {
                 enumerated += 1;
-                let mg = Merge { msgs: msgs.clone(), order };
+                let mg = Merge { msgs: msgs.clone(), order, abandoned: vec![] };
                 if let Err(e) = check_merge(ctx, &mg) {
                     ctx.violation("merges-exhaustive", json!(mg), &e);
                     break 'merges;
@@ -340,7 +360,14 @@ pub fn run(ctx: &mut Ctx) {
             m.channel = m.channel.wrapping_mul(4).wrapping_add(i as u32);
             m.len %= 1500;
         }
-        Merge { msgs, order }
+        Merge { msgs, order, abandoned: vec![] }
+    });
+    // a third of the generated merges start on a receiver that still holds given-up transmissions of the same channels
+    let strat = (strat, proptest::collection::vec((0usize..4, prop_oneof![58usize..400, 400usize..7609], any::<u8>(), 1usize..6), 0..3), 0u8..3).prop_map(|(mut mg, abandoned, sel)| {
+        if sel == 0 {
+            mg.abandoned = abandoned;
+        }
+        mg
     });
     let n = ctx.tier.pick(15_000u32, 4_000_000u32);
     match search(ctx, 26, n, strat, check_merge) {
@@ -370,7 +397,7 @@ pub fn run(ctx: &mut Ctx) {
                 order.extend(std::iter::repeat(0).take(packets_of(paused_len)));
             }
             order.extend(tail);
-            Merge { msgs, order }
+            Merge { msgs, order, abandoned: vec![] }
         },
     );
     let n = ctx.tier.pick(400u32, 60_000u32);
